@@ -384,7 +384,7 @@ theorem C12_queue_partial (p : Nat) : ∀ (tr : List Event) (s : Sys),
     request. -/
 theorem C12_hold_after_queued_counterexample :
     let s0 := BertE.Drv.C01.initSys true false [.dev 4 (some 3), .dev 5 (some 1)]
-    let pr : PrInfo := ⟨1, "feature/x", .dev 4 (some 3)⟩
+    let pr : PrInfo := ⟨1, "feature/x", .dev 4 (some 3), false⟩
     let s1 := (step s0 (.extSet "feature/x" [1] false)).1
     let s2 := (step s1 (.evalPr pr .final [] [])).1          -- queued
     let s3 := (step s2 (.evalPr pr .early [] [])).1          -- evaluation while held
@@ -573,7 +573,7 @@ example : Held genTbl exAfter ∧ (handlePr genTbl exAfter).notified = ["InitMes
 example : Held genTbl exReset ∧ (handlePr genTbl exReset).decision = .command "reset" [] := by decide
 -- C12_held_no_effect / C12_held_refs: the events of the jobs above, whatever the gates would have allowed
 example :
-    let pr : PrInfo := ⟨1, "feature/TEST-1", .dev 4 (some 3)⟩
+    let pr : PrInfo := ⟨1, "feature/TEST-1", .dev 4 (some 3), false⟩
     (match event (handlePr genTbl exWait) "OPEN" pr .final [] [] false true with
      | some (.evalPr p .early [] []) => p.id == 1
      | _ => false) = true ∧
@@ -598,8 +598,8 @@ example :
     let s0 := BertE.Drv.C01.initSys true false [.dev 4 (some 3)]
     let s1 := (step s0 (.extSet "feature/x" [1] false)).1
     let s2 := (step s1 (.extSet "feature/y" [1] false)).1
-    let tr : List Event := [.evalPr ⟨1, "feature/x", .dev 4 (some 3)⟩ .early [] [],
-                            .evalPr ⟨2, "feature/y", .dev 4 (some 3)⟩ .final [] [], .evalQueues [2]]
+    let tr : List Event := [.evalPr ⟨1, "feature/x", .dev 4 (some 3), false⟩ .early [] [],
+                            .evalPr ⟨2, "feature/y", .dev 4 (some 3), false⟩ .final [] [], .evalQueues [2]]
     s2.queue = [] ∧ ((run s2 (tr.take 2)).queue.map (·.pr)) = [2] ∧ (run s2 tr).queue = [] := by decide
 
 end Examples
